@@ -206,7 +206,8 @@ impl Scenario for C02 {
         let kind = *rng.pick(typed::KINDS);
         let mut t = typed::instance(rng, kind);
         let mut faults = vec![];
-        let enumerate_truncations = tier == Tier::Thorough && k % 64 == 0 && t.len() <= 800;
+        let enumerate_truncations = tier == Tier::Thorough && rng.chance(1, 64) && t.len() <= 800;
+        let _ = k;
         if enumerate_truncations {
             faults.push("truncate_all".to_string());
         } else if rng.chance(9, 10) {
